@@ -66,7 +66,7 @@ fn arb_req() -> BoxedStrategy<Req> {
     prop_oneof![
         4 => any::<bool>().prop_map(|dsl| Req::Parse { dsl }),
         2 => (0u8..4).prop_map(Req::ParseInvalid),
-        5 => (0u8..4, any::<bool>(), proptest::collection::vec((any::<u16>(), 0u8..3, any::<u8>()), 1..4)).prop_map(|(tool, json_input, edits)| Req::Mutated { tool, json_input, edits }),
+        5 => (0u8..4, any::<bool>(), proptest::collection::vec((any::<u16>(), 0u8..5, any::<u8>()), 1..4)).prop_map(|(tool, json_input, edits)| Req::Mutated { tool, json_input, edits }),
         6 => (prop_oneof![2 => Just(None), 1 => (2014i32..2026).prop_map(Some)], any::<bool>()).prop_map(|(year, json_input)| Req::Calc { year, json_input }),
         2 => Just(Req::CalcUncovered),
         1 => Just(Req::CalcMissingRate),
@@ -161,7 +161,21 @@ fn build(s: &Session, order: &[usize]) -> Vec<Built> {
                     }
                     let p = (*pos as usize * bytes.len()) >> 16;
                     let byte = BYTES[*b as usize % BYTES.len()];
+                    match op {
+                        3 | 4 => {
+                            // a run of multi-byte characters (error messages that quote or
+                            // point into the text must cope with them), anywhere or near the end
+                            const WIDE: [&str; 4] = ["\u{20ac}", "\u{e9}", "\u{1f600}", "\u{4e2d}"];
+                            let run = WIDE[*b as usize % 4].repeat(1 + (*b as usize / 4) % 6);
+                            let at = if *op == 4 { bytes.len() - (p % 24).min(bytes.len()) } else { p };
+                            for (k, x) in run.bytes().enumerate() {
+                                bytes.insert(at + k, x);
+                            }
+                        }
+                        _ => {}
+                    }
                     match op % 3 {
+                        _ if *op >= 3 => {}
                         0 => bytes.insert(p, byte),
                         1 => {
                             bytes.remove(p);
